@@ -1562,7 +1562,7 @@ Lemma calcsize_agrees : forall e, reparse_agrees e = true ->
 Proof.
   intros e H. unfold reparse_agrees in H. apply andb_true_iff in H as [H P]. apply andb_true_iff in H as [C U].
   apply Nat.leb_le in C. apply N.eqb_eq in U. apply optstr_eqb_eq in P.
-  unfold calcsize_text. rewrite (est_loop_summary _ _ C), U, P. reflexivity.
+  unfold calcsize_text, calcsize_items. rewrite (est_loop_summary _ _ C), U, P. reflexivity.
 Qed.
 
 (* ---- two printings of the same clauses: similar entries and clause values ---- *)
@@ -1677,11 +1677,13 @@ Proof.
 Qed.
 
 (* the decoder's scanner only reports positions of its own word list *)
-Lemma est_usage_from_range : forall ws i s u r, est_usage_from ws i s = Some (u, r) ->
+Lemma est_usage_from_range : forall b ws i s u r, est_usage_from_b b ws i s = Some (u, r) ->
   (N.to_nat i <= N.to_nat u < N.to_nat i + length ws)%nat.
 Proof.
-  induction ws as [|w ws IH]; intros i s u r H; cbn [est_usage_from] in H; [discriminate|].
-  destruct (lit_cs w s); [injection H as <- _; cbn [length]; lia|]. specialize (IH _ _ _ _ H). cbn [length]. lia.
+  intros b. induction ws as [|w ws IH]; intros i s u r H; cbn [est_usage_from_b] in H; [discriminate|].
+  destruct (lit_cs w s) as [rest|].
+  - destruct (est_after_ok b rest); [injection H as <- _; cbn [length]; lia|]. specialize (IH _ _ _ _ H). cbn [length]. lia.
+  - specialize (IH _ _ _ _ H). cbn [length]. lia.
 Qed.
 
 Lemma first_some_in : forall (A B : Type) (f : A -> option B) l y, SR.Model.Clauses.first_some f l = Some y -> exists x, In x l /\ f x = Some y.
@@ -1691,27 +1693,31 @@ Proof.
   destruct (IH y H) as (x0 & I & F). exists x0. split; [right; exact I|exact F].
 Qed.
 
-Lemma est_token_usage_range : forall s u r, est_token_at s = Some (EUsage u, r) -> In u R13.
+Lemma est_token_usage_range : forall b prev s u r, est_token_at_b b prev s = Some (EUsage u, r) -> In u R13.
 Proof.
-  intros s u r H. unfold est_token_at in H. destruct (est_alt_usage s) as [[v r0]|] eqn:E.
-  - injection H as <- _. unfold est_alt_usage in E. destruct (first_some_in _ _ _ _ _ E) as (x & _ & F).
-    unfold est_usage_at in F. pose proof (est_usage_from_range _ _ _ _ _ F) as R. change (length est_usage_words) with 13%nat in R.
+  intros b prev s u r H. unfold est_token_at_b in H. destruct (est_before_ok b prev); [|discriminate].
+  destruct (est_alt_usage_b b s) as [[v r0]|] eqn:E.
+  - injection H as <- _. unfold est_alt_usage_b in E. destruct (first_some_in _ _ _ _ _ E) as (x & _ & F).
+    unfold est_usage_at_b in F. pose proof (est_usage_from_range _ _ _ _ _ _ F) as R. change (length est_usage_words) with 13%nat in R.
     apply in_R13. cbn in R. lia.
   - destruct (est_alt_picture s) as [[p r0]|]; discriminate.
 Qed.
 
-Lemma last_usage_range : forall s skip u0, In u0 R13 -> In (last_usage (est_scan skip s) u0) R13.
+Lemma last_usage_range_b : forall b s prev skip u0, In u0 R13 -> In (last_usage (est_scan_b b prev skip s) u0) R13.
 Proof.
-  induction s as [|c t IH]; intros skip u0 H; cbn [est_scan last_usage]; [exact H|].
+  intros b. induction s as [|c t IH]; intros prev skip u0 H; cbn [est_scan_b last_usage]; [exact H|].
   destruct skip as [|k]; [|apply IH; exact H].
-  destruct (est_token_at (c :: t)) as [[[v|p] rest]|] eqn:E; cbn [last_usage]; try (apply IH; exact H).
-  apply IH. apply (est_token_usage_range _ _ _ E).
+  destruct (est_token_at_b b prev (c :: t)) as [[[v|p] rest]|] eqn:E; cbn [last_usage]; try (apply IH; exact H).
+  apply IH. apply (est_token_usage_range _ _ _ _ _ E).
 Qed.
+
+Lemma last_usage_range : forall s prev skip u0, In u0 R13 -> In (last_usage (est_scan prev skip s) u0) R13.
+Proof. intros. apply last_usage_range_b. assumption. Qed.
 
 Lemma reparse_usage_range : forall e, reparse_agrees e = true -> In (usage_number (spec_info e)) R13.
 Proof.
   intros e H. unfold reparse_agrees in H. apply andb_true_iff in H as [H _]. apply andb_true_iff in H as [_ U]. apply N.eqb_eq in U.
-  rewrite <- U. unfold est_items. apply last_usage_range. unfold usage_DISPLAY, R13. cbn [In]. intuition.
+  rewrite <- U. unfold est_items, est_items_b. apply last_usage_range_b. unfold usage_DISPLAY, R13. cbn [In]. intuition.
 Qed.
 
 Lemma usage_classes : forall e e', normal (ce_dict e) = normal (ce_dict e') -> reparse_agrees e = true -> reparse_agrees e' = true ->
